@@ -36,10 +36,10 @@ class AnswerCheck(HistCheck):
                 bump(res, 'unresolved')
                 continue
             if ans == 'unsat' and truth == 'sat' and 'unsat-but-sat' in self.report:
-                res['violations'].append({'cls': 'unsat-but-sat', 'sig': self.signature(case, 'unsat-but-sat'),
+                res['violations'].append({'cls': 'unsat-but-sat', 'sig': self.signature(case, 'unsat-but-sat', info['outs'][i]),
                                           'detail': {'check_index': i, 'refs': ctx.refs.last_raw, 'asserts': [a['ref'] for a in snaps[i]['asserts']]}})
             if ans == 'sat' and truth == 'unsat' and 'sat-but-unsat' in self.report:
-                res['violations'].append({'cls': 'sat-but-unsat', 'sig': self.signature(case, 'sat-but-unsat'),
+                res['violations'].append({'cls': 'sat-but-unsat', 'sig': self.signature(case, 'sat-but-unsat', info['outs'][i]),
                                           'detail': {'check_index': i, 'refs': ctx.refs.last_raw, 'asserts': [a['ref'] for a in snaps[i]['asserts']]}})
             want = 'unsat' if 'unsat-but-sat' in self.report else 'sat'
             if ans == want and len(snaps[i]['asserts']) >= 2 and (info['ticks'][i] or 0) > 1500:
@@ -48,11 +48,13 @@ class AnswerCheck(HistCheck):
         if nchecks == 0:
             res['discarded'] = 'no-definitive-answer'
 
-    def signature(self, case, cls):
-        # coarse cause attribution for known-finding matching: logic family, engine, and whether huge constants occur
+    def signature(self, case, cls, out=None):
+        # cause attribution for known-finding matching: logic family, engine, whether huge constants occur, whether an assertion
+        # level was ever pushed (a popped level leaves its activation variable in the SAT engine)
         text = ' '.join(c.get('text', '') for c in case['hist']['commands'])
         big = any(len(tok) >= 10 and tok.rstrip('.0').isdigit() for tok in text.replace('(', ' ').replace(')', ' ').split())
-        return {'logic': case.get('logic') or case['hist']['logic'], 'engine': engine_of(case['options']), 'bigconst': big}
+        return {'logic': case.get('logic') or case['hist']['logic'], 'engine': engine_of(case['options']), 'bigconst': big,
+                'pushed': any(c['k'] == 'push' for c in case['hist']['commands'])}
 
 
 def engine_of(options):
@@ -148,7 +150,9 @@ class C04(HistCheck):
                         side = ctx.refs.truth(self.prelude(case, snaps[i]), [x['ref'] for x in snaps[i]['asserts']])
                     except Exception:
                         pass
-                    res['violations'].append({'cls': 'incremental-differs-from-fresh', 'sig': {'incremental': a, 'fresh': f, 'truth': side},
+                    res['violations'].append({'cls': 'incremental-differs-from-fresh',
+                                              'sig': {'incremental': a, 'fresh': f, 'truth': side, 'engine': engine_of(case['options']),
+                                                      'pushed': any(x['k'] == 'push' for x in h['commands'][:i])},
                                               'detail': {'check_index': i, 'asserts': [x['ref'] for x in snaps[i]['asserts']]}})
             else:
                 bump(res, 'not-compared')
@@ -240,7 +244,8 @@ class C05(HistCheck):
                 wrong = ks if truth == 'unsat' else ku if truth == 'sat' else None
                 sig = {'truth': truth}
                 if wrong is not None:
-                    sig.update({'wrong_engine': engine_of(case['configs'][wrong]['options']), 'wrong_logic': case['configs'][wrong]['logic'] or case['hist']['logic']})
+                    sig.update({'wrong_engine': engine_of(case['configs'][wrong]['options']), 'wrong_logic': case['configs'][wrong]['logic'] or case['hist']['logic'],
+                                'pushed': any(x['k'] == 'push' for x in cmds[:i])})
                 res['violations'].append({'cls': 'config-contradiction', 'sig': sig, 'detail': {'check_index': i, 'sat_config': ks, 'unsat_config': ku, 'pair': [ks, ku]}})
                 break
         if all(a is None for a in answers):
